@@ -250,6 +250,8 @@ def tensor_stream(ck, qr, numpy, m):
         K2 = numpy.zeros((n, n)); K2[2, 1] = 1.0
         sbi = SystemBathInteraction([Operator(data=K1), Operator(data=K2)], rates=(rng.randint(1, 8) / 64.0, rng.randint(1, 8) / 64.0))
         as_ops = rng.random() < 0.5
+        if h % 3 == 0:
+            as_ops = (h % 6 == 0)      # the snapshot cases below: both forms, whatever the seed
         LF = LindbladForm(ham, sbi, as_operators=as_ops)
         Sd = numpy.array([[[[rng.randint(-4, 4) / 4.0 for _ in range(n)] for _ in range(n)] for _ in range(n)] for _ in range(n)])
         SO = SuperOperator(data=Sd.copy())
@@ -262,10 +264,18 @@ def tensor_stream(ck, qr, numpy, m):
         nest = rng.random() < 0.5
         boom = rng.random() < 0.4
         inp = {"H": Hd.tolist(), "as_operators": as_ops, "nested": nest, "exception": boom}
+        ops0 = [numpy.array(getattr(LF, k)).copy() for k in ("_Km", "_Lm", "_Ld")] if as_ops else None
+        snap = (h % 3 == 0)          # a snapshot (deep copy, which goes through the same state hook as save()) taken inside the context
+        inp["snapshot_inside"] = snap
+        cp = a1b = None
         try:
             with eigenbasis_of(ham):
                 a1 = LF.apply(rho, copy=True)
                 b1 = SO.apply(rho)
+                if snap:
+                    import copy as _copy
+                    cp = (_copy.deepcopy(LF), _copy.deepcopy(SO))
+                    a1b = (LF.apply(rho, copy=True), SO.apply(rho))
                 if nest:
                     with eigenbasis_of(other):
                         a2 = LF.apply(rho, copy=True)
@@ -291,6 +301,24 @@ def tensor_stream(ck, qr, numpy, m):
             bad.append(("Lindblad tensor restored", float(numpy.abs(numpy.array(LF._data) - lf_data0).max())))
         if numpy.abs(numpy.array(rho._data) - rd).max() > 1e-9 or numpy.abs(numpy.array(ham._data) - Hd).max() > 1e-9:
             bad.append(("state/Hamiltonian restored", 0.0))
+        if ops0 is not None:
+            dv = max(float(numpy.abs(numpy.array(getattr(LF, k)) - o).max()) for k, o in zip(("_Km", "_Lm", "_Ld"), ops0))
+            if dv > 1e-9:
+                bad.append(("Lindblad operators restored", dv))
+        if snap and a1b is not None:
+            if numpy.abs(numpy.array(a1b[0].data) - out_LF).max() > 1e-9:
+                bad.append(("Lindblad action after a snapshot inside the context", float(numpy.abs(numpy.array(a1b[0].data) - out_LF).max())))
+            if numpy.abs(numpy.array(a1b[1].data) - out_SO).max() > 1e-9:
+                bad.append(("SuperOperator action after a snapshot inside the context", float(numpy.abs(numpy.array(a1b[1].data) - out_SO).max())))
+            # the snapshot is the object in its stored representation: used outside, it acts like the original
+            try:
+                c0 = numpy.array(cp[0].apply(rho, copy=True).data); c1 = numpy.array(cp[1].apply(rho).data)
+                if numpy.abs(c0 - out_LF).max() > 1e-9:
+                    bad.append(("snapshot of the Lindblad form taken inside the context", float(numpy.abs(c0 - out_LF).max())))
+                if numpy.abs(c1 - out_SO).max() > 1e-9:
+                    bad.append(("snapshot of the SuperOperator taken inside the context", float(numpy.abs(c1 - out_SO).max())))
+            except Exception as e:
+                bad.append(("snapshot unusable: %r" % (e,), 0.0))
         if len(m.basis_stack) != 1 or m.basis_registered or m.current_basis_operator is not None:
             bad.append(("bookkeeping", 0.0))
             m.basis_stack[:] = [0]; m.basis_transformations[:] = [1]; m.basis_registered.clear()
